@@ -474,3 +474,145 @@ def obs_c16(c: Ctx, *, styles=None, rotate=0):
                 out.append({"q": "format", "a": a,
                             "r": call(fn, lambda t, join=join, stt=style_tuple: parse(t, join, stt, None))})
     return out
+
+
+# ------------------------------------------------------------------------------------------------ C08
+from nutree.common import SelectBranch  # noqa: E402
+
+FVERD = ["T", "F", "skip", "skipKeep", "select", "stop"]
+
+
+def _pred(c: Ctx, v, called, form):
+    """form: 'ret' (return instances), 'raise' (raise instances), 'cls' (return/raise the classes where possible)"""
+
+    def pred(node):
+        i = c.nid(node)
+        called.append(i)
+        vd = v[i - 1] if 1 <= i <= len(v) else "F"
+        if vd == "T":
+            return True
+        if vd == "F":
+            return False if (i % 2 or form == "ret") else None
+        if vd == "skip":
+            sig, cls = SkipBranch(), SkipBranch
+        elif vd == "skipKeep":
+            sig, cls = SkipBranch(and_self=False), None
+        elif vd == "select":
+            sig, cls = SelectBranch(), SelectBranch
+        else:
+            sig, cls = StopTraversal(), StopTraversal
+        if form == "ret":
+            return sig
+        if form == "raise":
+            raise sig
+        if form == "cls_ret" and cls is not None:
+            return cls
+        if form == "cls_raise" and cls is not None:
+            raise cls
+        if form == "stopiter" and vd == "stop":
+            raise StopIteration
+        return sig
+
+    return pred
+
+
+FORMS = ["ret", "raise", "cls_ret", "cls_raise", "stopiter"]
+
+
+def _forest_of(c: Ctx, new_tree, src_start):
+    """map the nodes of a copied (sub-)forest back to source ids: a child of a copy maps to the child of the
+    source with the same data_id (siblings are unique).  A leaf copy that maps to no source child but carries the
+    same data object and data_id as its own parent copy ("the node once more below itself") is taken out of the
+    forest and reported separately in `selfdup` (ids of the parents).
+    Returns (nested forest, faithful data/ids, kinds equal, selfdup)"""
+    flags = {"faithful": True, "kinds": True}
+    selfdup = []
+
+    def kids_of(i):
+        return c.st["top"] if i == 0 else c.st["kids"][i - 1]
+
+    def walk(copies, src_parent_ids, parent_copy, parent_id):
+        out = []
+        for cp in copies:
+            cand = [i for i in src_parent_ids if c.b.nodes[i].data_id == cp.data_id]
+            if len(cand) != 1:
+                if (parent_copy is not None and not cp.children and cp.data is parent_copy.data
+                        and cp.data_id == parent_copy.data_id):
+                    selfdup.append(parent_id)
+                else:
+                    out.append([-2, []])
+                continue
+            i = cand[0]
+            s = c.b.nodes[i]
+            if cp.data is not s.data or cp is s:
+                flags["faithful"] = False
+            if getattr(cp, "kind", None) != getattr(s, "kind", None):
+                flags["kinds"] = False
+            out.append([i, walk(cp.children, kids_of(i), cp, i)])
+        return out
+
+    forest = walk(new_tree.children, src_start, None, 0)
+    return forest, flags["faithful"], flags["kinds"], sorted(selfdup)
+
+
+def obs_c08(c: Ctx, st_builder, *, assignments, form_rotate=0):
+    """assignments: iterable of (p, v) with v a list of verdicts (len n)"""
+    st = c.st
+    out = []
+    k = form_rotate
+    nested_same_id = any(st["did"][ch - 1] == st["did"][i] for i in range(st["n"]) for ch in st["kids"][i])
+    for p, v in assignments:
+        form = FORMS[k % len(FORMS)]
+        k += 1
+        a = {"p": p, "v": list(v), "form": form, "self": True, "via": "inplace"}
+        # --- in place, on a fresh tree
+        b2 = st_builder()
+        c2 = Ctx(b2, st)
+        called = []
+        pred = _pred(c2, v, called, form)
+
+        def run_inplace(b2=b2, pred=pred, p=p):
+            (b2.tree if p == 0 else b2.nodes[p]).filter(pred)
+            proj = core.project(b2)["st"]
+            return proj
+
+        def norm_inplace(proj, called=called, n=st["n"]):
+            if proj["n"] != n:
+                raise TypeError("new nodes after filter")
+            live = [i for i in range(1, n + 1) if proj["par"][i - 1] != -1]
+            return {"live": live, "top": proj["top"], "kids": proj["kids"], "called": list(called)}
+
+        out.append({"q": "filter_inplace", "a": a, "r": call(run_inplace, norm_inplace)})
+        # --- copying forms on the shared tree
+        variants = [("filtered", True)] if p == 0 else [("filtered", True), ("copy_noself", False)]
+        variants.append(("copy", True))
+        if nested_same_id:
+            # a node with a child of the same data_id: the known "accepted node once more below itself" copy is
+            # indistinguishable from that child, so the copying forms cannot be observed unambiguously here
+            variants = []
+        for via, self_ in variants:
+            called2 = []
+            pred2 = _pred(c, v, called2, form)
+            before = core.project(c.b)["st"]
+
+            def run_copy(via=via, self_=self_, pred2=pred2, p=p):
+                src = c.b.tree if p == 0 else c.b.nodes[p]
+                if via == "filtered":
+                    return src.filtered(pred2)
+                if p == 0:
+                    return src.copy(predicate=pred2)
+                return src.copy(add_self=self_, predicate=pred2)
+
+            def norm_copy(t, called2=called2, before=before, p=p, self_=self_):
+                if p == 0 or not self_:
+                    start_ids = c.st["top"] if p == 0 else c.st["kids"][p - 1]
+                else:
+                    start_ids = [p]
+                forest, faithful, kinds, selfdup = _forest_of(c, t, start_ids)
+                same = core.project(c.b)["st"] == before
+                return {"forest": forest, "called": list(called2), "src_same": same, "faithful": faithful,
+                        "kinds": kinds, "selfdup": selfdup, "cls": type(t) is type(c.b.tree)}
+
+            a2 = dict(a, via=via, self=self_)
+            out.append({"q": "filter_copy", "a": a2, "r": call(run_copy, norm_copy)})
+    return out
